@@ -1,12 +1,12 @@
-"""X03 (extension, not one of the listed properties) - the laws of two reference specifications lifted from TLC's grids to every
-integer, by induction, with Apalache.  tla/apalache/MC_ServoInd.tla and MC_UltrasonicInd.tla INSTANCE the very modules that the
-trace specifications of C04 / C15 / C19 / C20 use (tla/Servo.tla, tla/Ultrasonic.tla carry @type comments for this purpose), let
-the call argument / gap / echo time / clock start range over all integers (the calibration too, in SymInv) and discharge
+"""X03 (extension, not one of the listed properties) - the laws of three reference specifications lifted from TLC's grids to every
+integer, by induction, with Apalache.  tla/apalache/MC_ServoInd.tla, MC_UltrasonicInd.tla and MC_ButtonInd.tla INSTANCE the very modules that the
+trace specifications of C04 / C15 / C19 / C20 use (tla/Servo.tla, tla/Ultrasonic.tla, tla/Button.tla carry @type comments for this), let
+the call argument / gap / echo time / clock start / number of passes range over all integers (the calibration too, in SymInv) and discharge
    base:  Init => IndInv              (--length=0)
    step:  IndInv /\\ Next => IndInv'    (--length=1 from an arbitrary state that satisfies IndInv)
 Each proof obligation is paired with a negative control that Apalache must refute (a law that is too strong), so a run in which
 the solver proves everything vacuously is recognised.  This check decides nothing about /repo by itself: the binding of these
-two specifications to the code is C04 / C19 (Servo) and C15 / C20 (Ultrasonic); what it adds is that the laws those checks hold
+specifications to the code is C04 / C19 (Servo) and C15 / C20 (Ultrasonic, Button); what it adds is that the laws those checks hold
 the code to are laws of the reference for every value, not only for the enumerated ones."""
 from __future__ import annotations
 
@@ -29,12 +29,15 @@ OBLIGATIONS = [
     ("MC_UltrasonicInd", "InitAny", None, "IndInvR", 0, True, "Ultrasonic base case (every clock start)"),
     ("MC_UltrasonicInd", "IndStartR", "NextAny", "IndInvR", 1, True, "Ultrasonic step: every gap, every echo time 0..30000 us"),
     ("MC_UltrasonicInd", "Spacing61Start", "NextAny", "Spacing61", 1, False, "negative control: a spacing of 61 ms is not preserved"),
+    ("MC_ButtonInd", "Init", None, "IndInv", 0, True, "Button base case"),
+    ("MC_ButtonInd", "IndStart", "NextAny", "IndInv", 1, True, "Button step: any number of passes, host agreement when the signal starts released"),
+    ("MC_ButtonInd", "AgreeAlwaysStart", "NextAny", "AgreeAlways", 1, False, "negative control: host agreement without its premise is not preserved"),
 ]
 
 
 def _workdir():
     d = subdir("apalache")
-    for f in ("Servo.tla", "Ultrasonic.tla"):
+    for f in ("Servo.tla", "Ultrasonic.tla", "Button.tla"):
         shutil.copy(TLA / f, d / f)
     for f in (TLA / "apalache").glob("*.tla"):
         shutil.copy(f, d / f.name)
@@ -62,7 +65,7 @@ def _run(d, mod, init, nxt, inv, length, timeout=900):
 def check(run) -> None:
     run.cov["rule"] = ("a case = one proof obligation (base or inductive step of one reference specification) or one negative control, "
                        "decided by Apalache over unbounded integers")
-    run.assumptions += ["the obligations are about the reference specifications only; tla/Servo.tla and tla/Ultrasonic.tla are bound to /repo by C04, C15, C19, C20",
+    run.assumptions += ["the obligations are about the reference specifications only; tla/Servo.tla, tla/Ultrasonic.tla and tla/Button.tla are bound to /repo by C04, C15, C19, C20",
                         "SymInv: calibrations with whole-unit spans, angles within -360..3600 degrees, pulses within 0..5000 us",
                         "Ultrasonic history sequences are bounded by the law itself (at most three echoes per call: Gen(3))"]
     d = _workdir()
